@@ -15,6 +15,7 @@ with the facts regenerated from the source (`Generated.C08.headerRet` = what `re
   Decrypt / take-scribble-put) runs to its end, the pool handing out the most recently put buffer;
   then A finishes.  Answer: `a=same|differs b=same|differs access=ok|violated steps=<n>`
   (`same` = the log equals `soloLog`; `access` = was every array touched owned by the toucher).
+* `reg ops=n0,n1,s,n0,…` — the logger-registry specification run sequentially.
 * `interleave seed=<n> docs=<hex>,<hex>,… [variant=…]` — a pseudo-random schedule with
   pseudo-random pool choices over Decrypt threads; same answer format (`a` = all threads).
 -/
@@ -147,12 +148,37 @@ def doInterleave (l : Kit.Line) : String :=
     | none => "bad-request"
   | _, _ => "bad-request"
 
+/-- `reg ops=<n|s>,…` — the registry specification run sequentially from the empty registry:
+`n<k>` = NewLogger(name k) answers the logger's identity, `s` = snapshot answers the names -/
+def doReg (l : Kit.Line) : String :=
+  match l.get? "ops" with
+  | some ops =>
+    let toks := if ops == "" then [] else ops.splitOn ","
+    let rec go (st : List Nat) (ts : List String) (acc : List String) : List String :=
+      match ts with
+      | [] => acc.reverse
+      | t :: rest =>
+        if t == "s" then
+          let r := regApply st .snapshot
+          go r.1 rest (("s:" ++ ".".intercalate (st.map toString)) :: acc)
+        else
+          match (t.drop 1).toString.toNat? with
+          | some k =>
+            let r := regApply st (.newLogger k)
+            match r.2 with
+            | .id i => go r.1 rest (("id:" ++ toString i) :: acc)
+            | .names _ => go r.1 rest ("?" :: acc)
+          | none => go st rest ("bad" :: acc)
+    " ".intercalate (go [] toks [])
+  | none => "bad-request"
+
 def answer (line : String) : String :=
   let l := Kit.parseLine line
   match l.op with
   | "rh" => doRH l
   | "forced" => doForced l
   | "interleave" => doInterleave l
+  | "reg" => doReg l
   | "facts" => s!"headerRet={repr Kit.Generated.C08.headerRet}"
   | _ => "bad-request"
 
